@@ -107,8 +107,18 @@ def judgeSingle (cmd : Cmd) (ps : List Str) (r0 : Req) (host path q : Str) (hdrS
   | .queryAdd =>
     if !untouched true true false true then "FAIL:qadd-side-effect"
     else if after == before ++ [(ps.getD 0 [], ps.getD 1 [])] then "ok" else "FAIL:qadd"
+  | .hostSuffixReplace =>
+    -- the oracle of `C49_effect_host_suffix_replace`: only the suffix occurrence changes
+    if host == specHostSuffixReplace r0.host (ps.getD 0 []) (ps.getD 1 []) && untouched false true true true then "ok"
+    else "FAIL:host-suffix-replace"
+  | .pathPrefixTrim =>
+    if path == specPathPrefixTrim r0.path (ps.getD 0 []) && untouched true false true true then "ok"
+    else "FAIL:path-prefix-trim"
+  | .pathPrefixAdd =>
+    if path == specPathPrefixAdd r0.path (ps.getD 0 []) && untouched true false true true then "ok"
+    else "FAIL:path-prefix-add"
   | _ =>
-    -- host / path / header actions: the documented transformation is the model's (no weaker reading exists)
+    -- remaining host / path / header actions: the documented transformation is the model's
     let want := doAction cmd ps r0
     if host == want.host && path == want.path && q == want.rawQuery && hdrS == (field (renderReq want) "hdr").getD "?" then "ok"
     else "FAIL:effect-" ++ cmd.name
@@ -203,8 +213,12 @@ def run (op impl : String) : Ans :=
       let isQ := cmds.any fun a => a.1 == .queryDel || a.1 == .queryDelAllExcept || a.1 == .queryRename || a.1 == .queryAdd
       let tricky := r0.rawQuery.contains '%' || r0.rawQuery.contains '+' || r0.rawQuery.contains ';' ||
                     (splitC '&' r0.rawQuery).any fun s => !s.contains '='
+      let occ (pat s : Str) : Nat := ((List.range (s.length + 1)).filter fun i => !pat.isEmpty && pat.isPrefixOf (s.drop i)).length
+      let repeated := cmds.any fun a =>
+        (a.1 == .hostSuffixReplace && occ (a.2.getD 0 []) r0.host > 1) ||
+        ((a.1 == .pathPrefixTrim || a.1 == .pathPrefixAdd) && occ (a.2.getD 0 []) r0.path > 1)
       { model := m, verdict := v
-        tags := ["acc", loader] ++ cmds.map (fun a => a.1.name) ++ (if cmds.length > 1 then ["multi"] else ["single"]) ++
+        tags := (if repeated then ["repeated-substring"] else []) ++ ["acc", loader] ++ cmds.map (fun a => a.1.name) ++ (if cmds.length > 1 then ["multi"] else ["single"]) ++
                 (if isQ && tricky then ["tricky-query"] else []) ++
                 (if r.rawQuery != r0.rawQuery || r.host != r0.host || r.path != r0.path || renderReq r != renderReq r0 then ["nt"] else []) }
   | _ => { model := "bad-op", verdict := "skip" }
